@@ -82,11 +82,11 @@ def judge(cases, results, rep, prop):
             acc = [x for x in real if x["accepted"]]
             if acc:
                 sig = dict(kind="hostile-variant-accepted", site=c["consumer"], variant=c["variant"], cause=cause(c))
-                rep.violation(sig, dict(property=prop, cases=[c], violation=dict(sig, fam=c["fam"], accepted=[x["name"] for x in acc], token=acc[0].get("token"))))
+                rep.violation(sig, dict(property=prop, cases=[c], stride=1, offset=0, violation=dict(sig, fam=c["fam"], accepted=[x["name"] for x in acc], token=acc[0].get("token"))))
             else:
                 st["rejected_hostile"] += 1
         if verdict != c["expect"]:
-            if c["bad"] and verdict == "reject":
+            if verdict == c.get("presc"):
                 st["repaired"] += 1
             else:
                 st["drift"].append("%s: model %s, real %s (%s)" % (key, c["expect"], verdict,
@@ -103,7 +103,7 @@ def run(prop, tier, seed, replay=None):
     binary = vlib.build_driver("jose")
     if replay:
         obj = json.load(open(replay))
-        res = vlib.run_driver(binary, dict(cases=obj["cases"]), timeout=120)
+        res = vlib.run_driver(binary, dict(cases=obj["cases"], stride=obj.get("stride", 1), offset=obj.get("offset", 0)), timeout=300)
         for r in res:
             print(json.dumps(r)[:3000])
         st = judge(obj["cases"], res, rep, prop)
@@ -124,6 +124,12 @@ def run(prop, tier, seed, replay=None):
         missing = [a for a in ACTIONS if not m.coverage.get(a)]
         if missing:
             raise Inconclusive("vacuity: actions never fired in the model: %s" % missing)
+    gp = vlib.tlc("Jose", "Jose.genp.cfg", workers=4, timeout=600)
+    if not gp.ok:
+        raise Inconclusive("TLC Jose.genp: %s %s" % (gp.violation, gp.error))
+    presc = {(c["consumer"], c["fam"], c["variant"]): c["expect"] for c in gp.printed}
+    for c in g.printed:
+        c["presc"] = presc[(c["consumer"], c["fam"], c["variant"])]
     table = sorted(g.printed, key=lambda c: (c["consumer"], c["fam"], c["variant"]))
     reps = 2 if quick else 8     # every repetition uses fresh keys, fresh (randomised) signatures and a fresh process
     cases = []
@@ -131,16 +137,19 @@ def run(prop, tier, seed, replay=None):
         for c in table:
             cases.append(dict(c, id="r%d/%s/%s/%s" % (i, c["consumer"], c["fam"], c["variant"])))
     rnd.shuffle(cases)
-    results = vlib.run_driver_parallel(binary, dict(cases=cases), key="cases", shards=min(8, 2 * reps), timeout=300)
+    stride, offset = (11, seed % 11) if quick else (1, 0)   # sweep variants: sampled positions in quick, every position in thorough
+    results = vlib.run_driver_parallel(binary, dict(cases=cases, stride=stride, offset=offset), key="cases", shards=8, timeout=400)
     st = judge(cases, results, rep, prop)
     rep.inconclusive += st["errors"][:10]
     for d in sorted(set(x.split("/", 1)[-1] if x.startswith("r") else x for x in st["drift"]))[:8]:
         rep.notes.append("DRIFT: " + d)
-    for p in sorted(set(st["panics"]))[:5]:
-        rep.notes.append("NOTE: consumer panicked (counted as a rejection here; robustness is C19): " + p)
+    if st["panics"]:
+        sites = sorted(set(p.split("/")[0] + "/" + p.split("/")[2] for p in st["panics"]))
+        rep.notes.append("NOTE: a consumer panicked on %d forged tokens (counted as rejections here; robustness is C19) at %s, e.g. %s"
+                         % (len(st["panics"]), sites, sorted(st["panics"])[0].split("/", 1)[1]))
     if st["repaired"]:
-        rep.notes.append("NOTE: %d acceptances predicted by the descriptive model (deviation constants of Jose.tla) were NOT observed: "
-                         "a deviation has been repaired, switch the constant in spec/cfg/Jose.gen.cfg" % st["repaired"])
+        rep.notes.append("NOTE: %d real verdicts follow the PRESCRIPTIVE model instead of the descriptive one: a deviation named by a constant of "
+                         "Jose.tla has been repaired in the code, switch it in spec/cfg/Jose.gen.cfg" % st["repaired"])
     if len(st["drift"]) > max(4, len(cases) // 20) and not rep.violations:
         rep.inconclusive.append("%d of %d real verdicts differ from the model's prediction: the descriptive model is out of date" % (len(st["drift"]), len(cases)))
     if not st["accepted_valid"] or not st["rejected_hostile"]:
@@ -149,12 +158,13 @@ def run(prop, tier, seed, replay=None):
                rule="TLC enumerates the complete table consumer(8) x key family(5) x variant(%d) minus the combinations that do not exist "
                     "(Applicable); every case is forged from a fresh valid token (several realisations per variant: spellings, key encodings, "
                     "algorithms) and fed to the real consumer, %d repetitions with fresh keys. evaluations = tokens consumed; distinct = distinct "
-                    "(repetition, consumer, family, variant) with variant # valid whose real verdict was obtained" % (len(set(c["variant"] for c in table)), reps),
+                    "(consumer, family, variant) with variant # valid whose real verdict was obtained; sweep-* variants flip one used bit at %s "
+                    "character position of the segment" % (len(set(c["variant"] for c in table)), reps, "every 11th" if quick else "every"),
                samples=st["samples"], table_cases=len(table), repetitions=reps, states=m.distinct, transitions=m.generated,
                models=[dict(cfg="Jose.check.cfg", states=m.distinct, wall_s=round(m.wall, 1)), dict(cfg="Jose.gen.cfg", states=g.distinct, cases=len(table), wall_s=round(g.wall, 1))],
                action_coverage=m.coverage, must_reject_cases=sum(1 for c in table if c["must_reject"]),
-               model_predicted_violations=sum(1 for c in table if c["bad"]), predicted_violations_not_observed=st["repaired"],
-               hostile_rejected=st["rejected_hostile"], valid_accepted=st["accepted_valid"], drift=len(st["drift"]),
+               model_predicted_violations=sum(1 for c in table if c["bad"]), verdicts_matching_prescriptive_model_only=st["repaired"],
+               hostile_rejected=st["rejected_hostile"], consumer_panics=len(st["panics"]), valid_accepted=st["accepted_valid"], drift=len(st["drift"]),
                drift_samples=sorted(set(st["drift"]))[:5], known_findings=sorted(rep.known))
     vlib.write_evidence(prop, tier, seed, "exploration", cov, time.time() - t0, len(rep.violations),
                         ["the ground truth of a forged variant (who signed what with which algorithm) is known by construction (harness/txforge/jose.go, harness/drivers/jose)",
